@@ -838,6 +838,10 @@ func checkC17(rc *RunCtx, sc *lifeScenario, out *lifeOutcome, seed uint64) {
 	if len(out.Panics) > 0 {
 		return
 	}
+	if out.Hang || out.OverStep {
+		rc.Violate("hang", "phase="+phase, "the scenario did not come to an end: hang=%v (nothing can make progress), overstep=%v (step budget exhausted: something polls without end)", out.Hang, out.OverStep)
+		return
+	}
 	// --- accounting told to the accept callback ---
 	for _, a := range out.Accepts {
 		if sc.SameAddr {
